@@ -1460,6 +1460,66 @@ impl TransportManager {
     }
 }
 
+// Verification hooks (runtime-monitoring harness only): read-only snapshots.
+#[cfg(feature = "verif")]
+impl TransportManager {
+    /// Debug rendering of the peer state, `None` if the peer is unknown.
+    pub fn verif_peer_state(&self, peer: &PeerId) -> Option<String> {
+        self.peers.read().get(peer).map(|context| format!("{:?}", context.state))
+    }
+
+    /// Short tag of the peer state.
+    pub fn verif_peer_state_tag(&self, peer: &PeerId) -> &'static str {
+        match self.peers.read().get(peer).map(|context| &context.state) {
+            None => "unknown",
+            Some(PeerState::Connected { secondary: None, .. }) => "connected",
+            Some(PeerState::Connected {
+                secondary: Some(peer_state::SecondaryOrDialing::Secondary(_)),
+                ..
+            }) => "connected+secondary",
+            Some(PeerState::Connected {
+                secondary: Some(peer_state::SecondaryOrDialing::Dialing(_)),
+                ..
+            }) => "connected+dialing",
+            Some(PeerState::Opening { .. }) => "opening",
+            Some(PeerState::Dialing { .. }) => "dialing",
+            Some(PeerState::Disconnected { dial_record: None }) => "disconnected",
+            Some(PeerState::Disconnected { dial_record: Some(_) }) => "disconnected+dialing",
+        }
+    }
+
+    /// Pending connections.
+    pub fn verif_pending_connections(&self) -> Vec<(ConnectionId, PeerId)> {
+        self.pending_connections.iter().map(|(c, p)| (*c, *p)).collect()
+    }
+
+    /// `(incoming, outgoing)` connections counted by the limits.
+    pub fn verif_limits(&self) -> (usize, usize) {
+        self.connection_limits.verif_counts()
+    }
+
+    /// Stored `(address, score)` of `peer`.
+    pub fn verif_addresses(&self, peer: &PeerId) -> Vec<(Multiaddr, i32)> {
+        self.peers
+            .read()
+            .get(peer)
+            .map(|context| {
+                context
+                    .addresses
+                    .addresses
+                    .values()
+                    .map(|record| (record.address().clone(), record.verif_score()))
+                    .collect()
+            })
+            .unwrap_or_default()
+    }
+
+    /// Number of pending accept futures.
+    pub fn verif_pending_accepts(&self) -> usize {
+        self.pending_accept.len()
+    }
+}
+
 #[cfg(test)]
 mod tests {
     use crate::transport::manager::{address::AddressStore, peer_state::SecondaryOrDialing};
